@@ -30,6 +30,20 @@ Configs2 == { [start |-> s, nodes |-> ("t0.a" :> N(kp[1], ep[1]) @@ tag :> N(kp[
 ConfigsAll   == Configs1 \cup Configs2
 ConfigsSmall == { [start |-> DayIndex(2024, 2, 26) * DAY, nodes |-> ("t0.a" :> N(k, es))] : k \in Kinds, es \in {{W(2)}, {B, M(1)}} }
 JumpsStd == {3600, DAY, 7 * DAY, 31 * DAY}
+LatesStd == {600}                      \* a wake-up that runs 10 minutes late: beyond the firing window
+NoLates  == {}
+(* guided instance "a moment passes while defer() cannot act": the pipeline starts on Wednesday 11:52, 480 s before
+   the weekly moment (outside the firing window), or on the 15th / the dated day at the same time; the operator may
+   hold the pipeline and the clock may move 15 minutes (7 minutes past the moment), wake-ups may be 10 minutes late *)
+LateStart(i) == i * DAY + Noon - 480
+ConfigsLate == { [start |-> LateStart(DayIndex(2024, 2, 28)), nodes |-> ("t0.a" :> N(k, es))] : k \in Kinds, es \in {{W(2)}, {W(2), W(4)}, {B, W(2)}} }
+          \cup { [start |-> LateStart(DayIndex(2024, 2, 15)), nodes |-> ("t0.a" :> N("task", {M(15)}))],
+                 [start |-> LateStart(DayIndex(2024, 2, 29)), nodes |-> ("t0.a" :> N("analysis", {D(DayIndex(2024, 2, 29))}))],
+                 [start |-> LateStart(DayIndex(2024, 2, 28)), nodes |-> ("t0.a" :> N("task", {W(2)}) @@ "t1.b" :> N("analysis", {W(2), W(3)}))] }
+JumpsLate == {900}
+(* NOT a property: expected to be violated -- a firing more than Window after the moment it is for
+   (the non-vacuity witness for C20_CatchUp) *)
+NoLateFiring == \A n \in Nodes : \A m \in AllOcc(n) : ~(m + Window < lastFire[n] /\ lastFire[n] < EndOfDay(m) /\ cfg.start < m)
 (* NOT a property: expected to be violated by the "rearm" variant (a timed event fires again in a later
    period) -- the non-vacuity witness for C20_Recurs / C20_Once *)
 NoSecondFiring == \A n \in Nodes : lastFire[n] < cfg.start + 6 * DAY
